@@ -8,10 +8,10 @@ def _index_row(table):
     return (' ' * 11 + 'IP0000T1' + table).ljust(243) + SUBID[table] + ' ' * 10
 
 
-def _file(mciipm, rows, enc, blocked, trailer=True):
+def _file(mciipm, rows, enc, blocked, trailer=True, tables=None):
     f = io.BytesIO()
     w = mciipm.VbsWriter(f, blocked=blocked)
-    for t in SUBID:
+    for t in (tables or SUBID):
         w.write(_index_row(t).encode(enc))
     if trailer:
         w.write(TRAILER.encode(enc))
@@ -22,19 +22,21 @@ def _file(mciipm, rows, enc, blocked, trailer=True):
     return f
 
 
-def replay_extract(table, cfg, expanded, enc, blocked, member, lens):
+def replay_extract(table, cfg, expanded, enc, blocked, member, lens, index='all', rows=None):
     from cardutil import mciipm
     from cardutil.config import config
     layout = config['mci_parameter_tables'][table] if cfg == 'packaged' else cfg
+    given = rows
     rows = []
     for i, (t, n) in enumerate(zip(member, lens)):
         ts = '%07d' % (2100000 + i) if not expanded else '%010d' % (2100000000 + i)
         code = 'A' if i % 2 == 0 else 'I'
         key = ts + code + (t if expanded else SUBID[t])
         body = ''.join(chr(65 + (j * 7 + i) % 26) for j in range(max(0, n - len(key))))
-        rows.append((key + body, ts, code))
+        rows.append(((given[i] if given else key + body), ts, code))
+    tables = None if index == 'all' else [t for t in SUBID if t != table]
     try:
-        rd = mciipm.IpmParamReader(_file(mciipm, [r[0] for r in rows], enc, blocked), table, encoding=enc,
+        rd = mciipm.IpmParamReader(_file(mciipm, [r[0] for r in rows], enc, blocked, tables=tables), table, encoding=enc,
                                    param_config=None if cfg == 'packaged' else {table: layout}, expanded=expanded, blocked=blocked)
         got = list(rd)
     except Exception as e:
